@@ -1,4 +1,6 @@
 import TcheranVerif.Model.Search
+import TcheranVerif.Proofs.SearchSound
+import TcheranVerif.Props.C07
 /-!
 # C04 — the search never overflows its score or counter arithmetic (theorems over the search model)
 
@@ -6,9 +8,15 @@ The search model (`Model/Search.lean`) is a transliteration whose `i16` arithmet
 overflow is the outcome `panic`. The theorems here show that, under the window invariant that holds
 off the root (`-32767 ≤ α < β ≤ 32767`), none of the window computations of `negamax`, of the
 aspiration loop and of the mate helpers can overflow, and that the 8-bit generation counter is total.
-"Returns a legal move" and "never panics" for whole searches are decided on the implementation by the
-Rules oracle and by verbatim agreement with the model in both build profiles; the structural proof
-(DESIGN App. B S1–S5) is not mechanised: partial.
+**`search_returns_legal`** (from `Proofs/SearchSound.lean`, an induction over the fuel of `negamax` and of
+its move loop): for every legal root position, every fuel, depth limit, stop instant, table size and table
+content left by earlier searches of the same game (`TTGood`), the move the search model answers with is a
+legal move of the root — whether it is the head of the principal variation or the fall-back first move of
+the picker. The one assumption is stated in the theorem: the 64-bit key does not confuse two positions
+reachable from the root that have different legal moves (`KeyFaithful`; every engine that plays its hash
+move unverified rests on it, it cannot be discharged). `search_answers_unless_panic`: the only way not to
+answer is the outcome `panic` of the model (the checked-arithmetic / index / `unwrap` failures), whose
+absence for whole searches is decided on the implementation in both build profiles: partial.
 -/
 namespace Tcheran.Props.C04
 open Tcheran Tcheran.Search
@@ -92,6 +100,104 @@ theorem killers_rows : newKillers.size = 255 := by
   rw [Array.size_replicate]
   decide
 
+
+/-! ### the answer is a legal move (C04 headline, over the search model) -/
+
+open Rules in
+/-- **search_returns_legal**: any universe of positions closed under play that contains the root and on
+which the key is faithful; any table that is good for it (a fresh one, a reset one, or one left by earlier
+searches of positions of the same universe — `search_keeps_table_good`) -/
+theorem search_returns_legal (T : SliderTables) (U : Universe) (fuel : Nat) (g : Game) (tt : TT.Table)
+    (history : Array Int) (depthLimit : Option Nat) (stopAt : Nat) (everyNode : Bool)
+    (hr : U.R 0 g) (htt : TTGood U tt) (m : Move)
+    (hm : (search fuel g tt history depthLimit stopAt everyNode).best = some m) :
+    m ∈ legalMoves (ofGame g) :=
+  (search_sound T U fuel g tt history depthLimit stopAt everyNode hr htt).1 m hm
+
+open Rules in
+theorem search_keeps_table_good (T : SliderTables) (U : Universe) (fuel : Nat) (g : Game) (tt : TT.Table)
+    (history : Array Int) (depthLimit : Option Nat) (stopAt : Nat) (everyNode : Bool)
+    (hr : U.R 0 g) (htt : TTGood U tt) :
+    TTGood U (search fuel g tt history depthLimit stopAt everyNode).ctx.tt :=
+  (search_sound T U fuel g tt history depthLimit stopAt everyNode hr htt).2.2
+
+open Rules in
+/-- the same for the canonical universe of a legal root (everything reachable from it by legal moves and
+null moves out of check) and a freshly allocated table of any size: no hypothesis on the table is left -/
+theorem fresh_search_returns_legal (T : SliderTables) (root : Game) (h : SInv root) (hk : KeyFaithful root)
+    (fuel mb : Nat) (history : Array Int) (depthLimit : Option Nat) (stopAt : Nat) (everyNode : Bool) (m : Move)
+    (hm : (search fuel root (TT.new mb) history depthLimit stopAt everyNode).best = some m) :
+    m ∈ legalMoves (ofGame root) :=
+  search_returns_legal T (Universe.ofRoot root h hk) fuel root (TT.new mb) history depthLimit stopAt everyNode
+    ReachN.root (ttGood_new _ mb) m hm
+
+open Rules in
+/-- **any earlier search history**: a second search, on the table the first one left, from a position `k`
+plies further down the same game, also answers with a legal move -/
+theorem search_after_search (T : SliderTables) (U : Universe) (f1 f2 : Nat) (g1 g2 : Game) (k : Nat) (tt : TT.Table)
+    (h1 h2 : Array Int) (d1 d2 : Option Nat) (s1 s2 : Nat) (e1 e2 : Bool)
+    (hr1 : U.R 0 g1) (hr2 : U.R k g2) (htt : TTGood U tt) (m : Move)
+    (hm : (search f2 g2 (search f1 g1 tt h1 d1 s1 e1).ctx.tt h2 d2 s2 e2).best = some m) :
+    m ∈ legalMoves (ofGame g2) := by
+  have hg := search_keeps_table_good T U f1 g1 tt h1 d1 s1 e1 hr1 htt
+  have hsh : TTGood (U.shift k) (search f1 g1 tt h1 d1 s1 e1).ctx.tt :=
+    ttGood_shift U 0 k (Nat.zero_le k) _ (fun n g d m hr => hg (0 + n) g d m hr)
+  exact search_returns_legal T (U.shift k) f2 g2 _ h2 d2 s2 e2 hr2 hsh m hm
+
+/-- the search model answers unless it panics: there is no third outcome -/
+theorem search_answers_unless_panic (fuel : Nat) (g : Game) (tt : TT.Table) (history : Array Int)
+    (depthLimit : Option Nat) (stopAt : Nat) (everyNode : Bool) :
+    (search fuel g tt history depthLimit stopAt everyNode).best.isSome = true ∨
+    (search fuel g tt history depthLimit stopAt everyNode).panic.isSome = true := by
+  unfold search
+  simp only
+  repeat' split
+  all_goals simp
+
+open Rules in
+/-- with the engine's own slider tables (inherits the `native_decide` of `Props.C07`) -/
+theorem fresh_search_returns_legal_tables (root : Game) (h : SInv root) (hk : KeyFaithful root)
+    (fuel mb : Nat) (history : Array Int) (depthLimit : Option Nat) (stopAt : Nat) (everyNode : Bool) (m : Move)
+    (hm : (search fuel root (TT.new mb) history depthLimit stopAt everyNode).best = some m) :
+    m ∈ legalMoves (ofGame root) :=
+  fresh_search_returns_legal ⟨Tcheran.Props.C07.rook_table_geometric, Tcheran.Props.C07.bishop_table_geometric⟩
+    root h hk fuel mb history depthLimit stopAt everyNode m hm
+
+/-- non-vacuity: the hypotheses are satisfiable. A concrete legal root (`7k/6Q1/6K1/8/8/8/8/8 b`, the side
+to move checkmated: nothing is reachable, so key faithfulness is provable; for a root with moves it is
+the stated assumption) -/
+def mateBoard : Board :=
+  ((Board.empty.setAt ⟨63, by decide⟩ ⟨.king, .black⟩).setAt ⟨54, by decide⟩ ⟨.queen, .white⟩).setAt
+    ⟨46, by decide⟩ ⟨.king, .white⟩
+
+def mateGame : Game :=
+  { player := .black, board := mateBoard, rights := Rights.none, ep := none, halfmove := 0,
+    plies := 1, zobrist := 0#64, inc := default, history := [] }
+
+theorem mate_sinv : SInv mateGame := by
+  refine ⟨?_, ginv_of_legal _ (by decide +kernel)⟩
+  show Board.Consistent mateBoard
+  unfold mateBoard
+  refine Board.consistent_setAt _ _ _ (Board.consistent_setAt _ _ _ (Board.consistent_setAt _ _ _
+    Board.consistent_empty ?_) ?_) ?_ <;> decide +kernel
+
+theorem mate_only_root : ∀ n g, ReachN mateGame n g → g = mateGame := by
+  intro n g h
+  induction h with
+  | root => rfl
+  | move n g g' m _ hl _ ih =>
+    subst ih
+    have : Rules.legalMoves (Rules.ofGame mateGame) = [] := by decide +kernel
+    rw [this] at hl; cases hl
+  | null n g _ hc ih =>
+    subst ih
+    have : Rules.inCheck mateGame.board.squares mateGame.player = true := by decide +kernel
+    rw [this] at hc; cases hc
+
+example : ∃ (root : Game) (_ : SInv root), KeyFaithful root :=
+  ⟨mateGame, mate_sinv, fun n1 n2 g1 g2 h1 h2 _ m => by
+    rw [mate_only_root n1 g1 h1, mate_only_root n2 g2 h2]⟩
+
 example : -32767 ≤ neg 50 ∧ neg 50 < neg (-50) := by decide
 
 end Tcheran.Props.C04
@@ -105,3 +211,9 @@ end Tcheran.Props.C04
 #print axioms Tcheran.Props.C04.generation_total
 #print axioms Tcheran.Props.C04.generation_iter
 #print axioms Tcheran.Props.C04.killers_rows
+#print axioms Tcheran.Props.C04.search_returns_legal
+#print axioms Tcheran.Props.C04.search_keeps_table_good
+#print axioms Tcheran.Props.C04.fresh_search_returns_legal
+#print axioms Tcheran.Props.C04.search_after_search
+#print axioms Tcheran.Props.C04.search_answers_unless_panic
+#print axioms Tcheran.Props.C04.fresh_search_returns_legal_tables
